@@ -383,6 +383,9 @@ class MultiValue(Object):
         return None
 
 
+OBJECT_ATTRS = vars(object)
+
+
 class ClassObject(Object, Callable):
     def __init__(self, ctx, scope):
         # type: (EvalCtx, ClassScope) -> None
@@ -406,7 +409,13 @@ class ClassObject(Object, Callable):
         # visible to re-entrant lookups: ends inheritance cycles
         attrs = self.__dict__['_attrs'] = {}  # type: Attributes
         for b in reversed(self.bases):
-            attrs.update(getattr(b, '_attrs', {}))
+            for k, v in iteritems(getattr(b, '_attrs', {})):
+                if (k in attrs and isinstance(v, RuntimeName)
+                        and OBJECT_ATTRS.get(k, OBJECT_ATTRS) is v.value):
+                    # object is last in every MRO: what a base inherits from
+                    # it does not shadow the attributes of the other bases
+                    continue
+                attrs[k] = v
         attrs.update(self._cls_attrs)
         return attrs
 
